@@ -38,6 +38,8 @@ fn run(prop: &str, tier: Tier) -> i32 {
         "C03" => checks::valuespace::run(Prop::C03, tier),
         "C04" => checks::valuespace::run(Prop::C04, tier),
         "C05" => checks::c05::run(tier),
+        "C06" => checks::c06::run(tier),
+        "C07" => checks::c07::run(tier),
         "C09" => checks::c09::run(tier),
         "C11" => checks::c11::run(tier),
         "C15" => checks::c15::run(tier),
@@ -72,6 +74,7 @@ fn replay(path: &str) -> i32 {
         "C03" => checks::valuespace::replay(Prop::C03, &case),
         "C04" => checks::valuespace::replay(Prop::C04, &case),
         "C05" => checks::c05::replay(&case),
+        "C06" | "C07" | "C08" => checks::c07::replay(&case),
         "C09" => checks::c09::replay(&case),
         "C11" => checks::c11::replay(&case),
         "C15" => checks::c15::replay(&case),
